@@ -144,8 +144,10 @@ func (eng *Engine) verifyFunction(f *ssa.Function, ct *Contract) (res *FuncResul
 	if ct.hasAssgn && ct.noframe {
 		fc.trusted[ct.pkgPath+"::"+ct.key+" (frame not checked: noframe)"] = true
 	}
-	if ct.hasAssgn && !ct.noframe && !ct.inferRest { // 'inferred' frames are whatever the body writes
-		eng.frameObligations(fr, fc, ct, exit, env0, name)
+	if ct.hasAssgn && !ct.noframe {
+		// with 'inferred', only the classes the explicit items name are checked (the others are
+		// whatever the body writes)
+		eng.frameObligations(fr, fc, ct, exit, env0, name, ct.inferRest)
 	}
 	ids := eng.topIDs()
 	// vacuity: the preconditions are satisfiable and some return is reachable
@@ -177,7 +179,7 @@ func shortPkg(path string) string {
 }
 
 // frameObligations: every heap class changed by the body must be covered by the assigns clause.
-func (eng *Engine) frameObligations(fr *Frame, fc *FuncCtx, ct *Contract, exit *State, env0 *Env, name string) {
+func (eng *Engine) frameObligations(fr *Frame, fc *FuncCtx, ct *Contract, exit *State, env0 *Env, name string, onlyNamed bool) {
 	whole := map[string]bool{}
 	points := map[string][]*Term{}
 	for _, item := range ct.assigns {
@@ -205,6 +207,9 @@ func (eng *Engine) frameObligations(fr *Frame, fc *FuncCtx, ct *Contract, exit *
 	ids := eng.topIDs()
 	for _, k := range keys {
 		if classIsLocal(k) || strings.HasPrefix(k, "Box:") || whole[k] {
+			continue
+		}
+		if onlyNamed && len(points[k]) == 0 {
 			continue
 		}
 		s := fc.heapSorts[k]
